@@ -1,5 +1,5 @@
 #!/usr/bin/env python3
-"""alpha_rename.py SRC_ROOT DST_ROOT [--only module.py[:Qual.name]] [--suffix _v]
+"""alpha_rename.py SRC_ROOT DST_ROOT [--only module.py[:Qual.name]] [--suffix _v] [--fraction 0.5 --seed N]
 
 Behaviour-preserving negative control, produced mechanically: copies SRC_ROOT (a checkout of srctools) to DST_ROOT and renames the
 *local variables* of every function (names bound by assignment / for / with / comprehension / walrus inside the function, excluding
@@ -74,6 +74,8 @@ def rename_module(src: str, only_qual: Optional[str], suffix: str) -> Tuple[str,
         if 'locals' in {x.id for x in ast.walk(fn) if isinstance(x, ast.Name)}:
             return
         ren = {b: b + suffix for b in sorted(bound - frozen) if not b.startswith('__') and (b + suffix) not in module_names and b != '_'}
+        if FRACTION < 1.0:
+            ren = {k: v for k, v in ren.items() if RNG.random() < FRACTION}       # partial rename: only some of the locals of each function
         if not ren:
             return
         n_funcs += 1
@@ -108,8 +110,17 @@ def rename_module(src: str, only_qual: Optional[str], suffix: str) -> Tuple[str,
     return out, n_funcs
 
 
+FRACTION = 1.0
+RNG = __import__('random').Random(0)
+
+
 def main() -> None:
+    global FRACTION, RNG
     args = sys.argv[1:]
+    if '--fraction' in args:
+        FRACTION = float(args[args.index('--fraction') + 1])
+    if '--seed' in args:
+        RNG = __import__('random').Random(int(args[args.index('--seed') + 1]))
     src_root, dst_root = args[0], args[1]
     only_mod = only_qual = None
     suffix = '_v'
